@@ -401,9 +401,11 @@ def run(ck):
     ck.attempt(rule_validate_before_mutate, rid="C03.R6")
     # "0 <= recorded rate <= recorded pilot": the rate an EV reports (and the simulator records) is the value its battery returned for
     # this very pilot, and every battery entry point goes through a bounded routine (shared with C02)
-    from .c02 import rule_same_value, rule_call_chain
+    from .c02 import rule_same_value, rule_call_chain, rule_vacancy
     ck.attempt(rule_same_value, rid="C03.R10")
     ck.attempt(rule_call_chain, rid="C03.R11")
+    # ... "at every station": the vector the simulator records holds, in each station's slot, the rate of the EV attached to that station
+    ck.attempt(rule_vacancy, rid="C03.R12")
     # the clamps only bound the rate if the conversions between A, kW, kWh and SoC-per-period are exact (units + truncation)
     from ..units import check_units
     from ..tables import UNITS
